@@ -43,11 +43,13 @@ type BWritten struct {
 	Peer int    `json:"peer"`
 	ID   uint64 `json:"id"`
 	Code int    `json:"code,omitempty"`
+	Req  uint64 `json:"req,omitempty"` // request id carried by an ack / err
 }
 
 type BObs struct {
 	Res     int         `json:"res"` // open: 0 acked, 1 refused (limit), 2 failed otherwise; others 0
 	Written []BWritten  `json:"written"`
+	ReqID   uint64      `json:"req_id,omitempty"` // request id the harness used for an open
 	Count   int64       `json:"count"`
 	Recs    []BRec      `json:"recs"`
 	Closed  []int       `json:"closed"`   // serials whose handler-side connection object is closed
@@ -85,11 +87,11 @@ func (w *bookWriter) WriteStreamOpenAck(p identity.AgentID, id uint64, req uint6
 	w.lastAckKey = k
 	w.lastAckPort = port
 	w.mu.Unlock()
-	w.add(BWritten{Kind: "ack", Peer: PNum(p), ID: id})
+	w.add(BWritten{Kind: "ack", Peer: PNum(p), ID: id, Req: req})
 	return nil
 }
 func (w *bookWriter) WriteStreamOpenErr(p identity.AgentID, id uint64, req uint64, code uint16, msg string) error {
-	w.add(BWritten{Kind: "err", Peer: PNum(p), ID: id, Code: int(code)})
+	w.add(BWritten{Kind: "err", Peer: PNum(p), ID: id, Code: int(code), Req: req})
 	return nil
 }
 func (w *bookWriter) WriteStreamClose(p identity.AgentID, id uint64) error {
@@ -172,7 +174,7 @@ func NewBookRunner(kind string, maxConns int) (*BookRunner, error) {
 	}
 	b := &BookRunner{kind: kind, w: &bookWriter{ch: make(chan struct{}, 1)}, ln: ln, accCh: make(chan *destConn, 16),
 		exRecs: map[int]*exit.ActiveConnection{}, fwRecs: map[int]*forward.ActiveConnection{}, keys: map[int]*crypto.SessionKey{},
-		endCh: make(chan struct{}, 1), destClosed: map[int]bool{}}
+		endCh: make(chan struct{}, 1), destClosed: map[int]bool{}, req: 1000}
 	hook := func(name string) {
 		if name == "readLoop.end" {
 			b.ended.Add(1)
@@ -381,6 +383,7 @@ func (b *BookRunner) Step(op BOp) BObs {
 	switch op.Op {
 	case "open":
 		b.req++
+		o.ReqID = b.req
 		priv, pub, err := crypto.GenerateEphemeralKeypair()
 		if err != nil {
 			o.Note = err.Error()
@@ -435,6 +438,7 @@ func (b *BookRunner) Step(op BOp) BObs {
 		// an open whose ephemeral public key is all zero: the key exchange fails
 		// after the destination checks; no connection may remain accounted for
 		b.req++
+		o.ReqID = b.req
 		var zero [crypto.KeySize]byte
 		port := b.ln.Addr().(*net.TCPAddr).Port
 		var err error
